@@ -1644,4 +1644,162 @@ Proof.
         rewrite Hj. apply (Hst (drop n y) z); rewrite <- Hj; assumption.
 Qed.
 
+Lemma aligned_bufsize_range B : B < SIZE_LIMIT - 8 -> 24 <= aligned_bufsize B < SIZE_LIMIT.
+Proof.
+  unfold aligned_bufsize, MIN_BUF_SIZE, USIZE_MAX64, ALIGN_ADD, ALIGN_MASK, SIZE_LIMIT. intros H.
+  destruct (N.leb_spec B 24); [lia|].
+  destruct (N.ltb_spec 18446744073709551615 (B + 7)); lia.
+Qed.
+
+Lemma sinv_init B wire : B < SIZE_LIMIT - 8 -> sinv (aligned_bufsize B) wire (new_parser B) wire [] [].
+Proof.
+  intros HB. pose proof (aligned_bufsize_range B HB) as Hr. unfold new_parser, sinv. cbn [held st cap].
+  split; [reflexivity|]. split.
+  { split; [exact I|]. split; [exact I|]. cbn [held st cap]. split; [constructor|]. rewrite len_nil. lia. }
+  split; [reflexivity|]. split; [reflexivity|]. split; [exact I|]. split; [rewrite len_nil; lia|].
+  split; [exists Header; split; [exact (drive_settle Header I)|reflexivity]|exact (drive_settle Header I)].
+Qed.
+
+Lemma run_schedule_inv B wire sched : B < SIZE_LIMIT - 8 -> bytes_ok wire -> len wire < SIZE_LIMIT ->
+  exists p' d u' o' T, run_schedule norm maxc (new_parser B) wire sched = SOk p' d u' o' /\
+    sfin (aligned_bufsize B) wire p' d u' o' T /\
+    (forall y z, wire = y ++ z -> stuck_at (aligned_bufsize B) y -> exists y', y = T ++ y').
+Proof.
+  intros HB Hok Hsz. unfold run_schedule.
+  destruct (run_sched_inv (aligned_bufsize B) wire Hok Hsz (sched_fuel wire sched) (new_parser B) wire sched [] []
+              (sinv_init B wire HB) ltac:(unfold sched_fuel; lia))
+    as [p' [d [u' [o' [T [Hrun [Hfin [_ Hst]]]]]]]].
+  exists p', d, u', o', T. split; [exact Hrun|]. split; [exact Hfin|].
+  intros y z Hy Hs. exact (Hst y z Hy Hs).
+Qed.
+
+Lemma sched_total : sched_total_stmt norm maxc.
+Proof.
+  intros B wire sched HB Hok Hsz.
+  destruct (run_schedule_inv B wire sched HB Hok Hsz) as [p [d [u [o [T [Hrun [[Hw [Hp [s0 [Hc [Hn0 Hd]]]]] _]]]]]]].
+  exists p, d, u, o. split; [exact Hrun|]. split; [exact Hp|].
+  assert (HokT : bytes_ok T) by (rewrite Hw in Hok; apply bytes_ok_app in Hok; tauto).
+  assert (HlT : len T < SIZE_LIMIT) by (rewrite Hw, len_app in Hsz; lia).
+  destruct (drive_all_ok Header T I HokT HlT) as [r0 [s00 [o00 [E0 [_ [_ [[c Hc0] _]]]]]]].
+  rewrite Hc in E0. inversion E0; subst r0 s00 o00.
+  split; [|split].
+  - intros Hdf. destruct Hd as [[_ [Hu _]]|[[Hd _]|[Hd _]]]; [exact Hu|congruence|congruence].
+  - destruct Hd as [[Hd [_ [_ [Hf _]]]]|[[Hd [Hf Hs]]|[Hd [_ [_ Hs]]]]]; rewrite Hd.
+    + split; intros X; congruence.
+    + split; intros _; [rewrite Hs; exact Hf|reflexivity].
+    + split; intros _; [rewrite Hs; reflexivity|reflexivity].
+  - exists c. rewrite Hw, Hc0, app_assoc. reflexivity.
+Qed.
+
+Lemma sfin_compare C wire p1 d1 u1 o1 T1 p2 d2 u2 o2 l : bytes_ok wire -> len wire < SIZE_LIMIT ->
+  sfin C wire p1 d1 u1 o1 T1 -> sfin C wire p2 d2 u2 o2 (T1 ++ l) ->
+  (stuck_at C T1 -> exists y', T1 = (T1 ++ l) ++ y') ->
+  d1 = d2 /\ settle (st p1) = settle (st p2) /\ (d1 = true -> st p1 = st p2) /\ o1 = o2 /\
+  held p1 ++ u1 = held p2 ++ u2.
+Proof.
+  intros Hok Hsz [W1 [P1 [sa [Ca [Na Da]]]]] [W2 [P2 [sb [Cb [Nb Db]]]]] Hstuck.
+  assert (Hu : u1 = l ++ u2).
+  { apply (app_inv_head T1). rewrite <- W1, W2, app_assoc. reflexivity. }
+  destruct l as [|b l'].
+  - rewrite app_nil_r in *. cbn [app] in Hu. subst u2. rewrite Ca in Cb. injection Cb as Hh Hs Ho.
+    subst sb o2. rewrite Hh in *.
+    destruct Da as [[Hd1 [Hu1 [Hs1 [Hf1 [Hn1 Hl1]]]]]|[[Hd1 [Hf1 Hs1]]|[Hd1 [Hf1 [Hl1 Hs1]]]]];
+      destruct Db as [[Hd2 [Hu2 [Hs2 [Hf2 [Hn2 Hl2]]]]]|[[Hd2 [Hf2 Hs2]]|[Hd2 [Hf2 [Hl2 Hs2]]]]].
+    + subst d1 d2. repeat split; [congruence|discriminate].
+    + destruct (settle_eq_final sa (st p1) Na Hn1 Hs1) as [X _]. congruence.
+    + lia.
+    + destruct (settle_eq_final sa (st p2) Na Hn2 Hs2) as [X _]. congruence.
+    + subst d1 d2. repeat split; congruence.
+    + congruence.
+    + lia.
+    + congruence.
+    + subst d1 d2. repeat split; congruence.
+  - destruct Da as [[Hd1 [Hu1 _]]|[[Hd1 [Hf1 Hs1]]|[Hd1 [Hf1 [Hl1 Hs1]]]]].
+    + subst u1. discriminate.
+    + assert (HokT : bytes_ok (T1 ++ b :: l')) by (rewrite W2 in Hok; apply bytes_ok_app in Hok; tauto).
+      assert (HlT : len (T1 ++ b :: l') < SIZE_LIMIT) by (rewrite W2, len_app in Hsz; lia).
+      rewrite (canon_final T1 (b :: l') _ _ _ HokT HlT Ca Hf1) in Cb. injection Cb as Hh Hs Ho.
+      subst sb o2.
+      destruct Db as [[Hd2 [Hu2 [Hs2 [Hf2 [Hn2 Hl2]]]]]|[[Hd2 [Hf2 Hs2]]|[Hd2 [Hf2 [Hl2 Hs2]]]]].
+      * destruct (settle_eq_final sa (st p2) Na Hn2 Hs2) as [X _]. congruence.
+      * subst d1 d2. split; [reflexivity|]. split; [congruence|]. split; [congruence|].
+        split; [reflexivity|]. rewrite Hu, <- Hh, app_assoc. reflexivity.
+      * congruence.
+    + destruct Hstuck as [y' Hy'].
+      { exists (held p1), sa, o1. repeat split; assumption. }
+      apply (f_equal len) in Hy'. rewrite !len_app, len_cons in Hy'. lia.
+Qed.
+
+(* chunking invariance, with the final states compared up to settling (see sched_counterexample) *)
+Definition sched_invariant'_stmt : Prop := forall B wire s1 s2 p1 d1 u1 o1 p2 d2 u2 o2,
+  B < SIZE_LIMIT - 8 -> bytes_ok wire -> len wire < SIZE_LIMIT ->
+  run_schedule norm maxc (new_parser B) wire s1 = SOk p1 d1 u1 o1 ->
+  run_schedule norm maxc (new_parser B) wire s2 = SOk p2 d2 u2 o2 ->
+  d1 = d2 /\ settle (st p1) = settle (st p2) /\ (d1 = true -> st p1 = st p2) /\ o1 = o2 /\
+  held p1 ++ u1 = held p2 ++ u2.
+
+Lemma sched_invariant' : sched_invariant'_stmt.
+Proof.
+  intros B wire s1 s2 p1 d1 u1 o1 p2 d2 u2 o2 HB Hok Hsz R1 R2.
+  destruct (run_schedule_inv B wire s1 HB Hok Hsz) as [p1' [d1' [u1' [o1' [T1 [R1' [F1 J1]]]]]]].
+  destruct (run_schedule_inv B wire s2 HB Hok Hsz) as [p2' [d2' [u2' [o2' [T2 [R2' [F2 J2]]]]]]].
+  rewrite R1 in R1'. inversion R1'; subst p1' d1' u1' o1'.
+  rewrite R2 in R2'. inversion R2'; subst p2' d2' u2' o2'.
+  pose proof F1 as [W1 _]. pose proof F2 as [W2 _].
+  assert (HW : T1 ++ u1 = T2 ++ u2) by (rewrite <- W1, <- W2; reflexivity).
+  destruct (app_eq_app _ _ _ _ HW) as [l [[H1 H2]|[H1 H2]]].
+  - (* T1 = T2 ++ l *)
+    subst T1.
+    destruct (sfin_compare _ wire p2 d2 u2 o2 T2 p1 d1 u1 o1 l Hok Hsz F2 F1) as [A1 [A2 [A3 [A4 A5]]]].
+    { intros Hst. exact (J1 T2 u2 W2 Hst). }
+    subst d2. repeat split; try congruence. intros X. symmetry. apply A3. exact X.
+  - subst T2.
+    apply (sfin_compare _ wire p1 d1 u1 o1 T1 p2 d2 u2 o2 l Hok Hsz F1 F2).
+    intros Hst. exact (J2 T1 u1 W1 Hst).
+Qed.
+
 End Drive.
+
+(* ---- the two statements of ReqTargets.v that are false as stated, with the witnesses ----
+   (A) with d2 = [] and the conjunct [st p1 = st p2] of chunking invariance fail on a GetValues
+   management header announcing an empty body and no padding: the loop returns on `Continue []`
+   without driving the new state, and `HeaderValues 0 0 0` is not stable under a 0-byte drive.
+   drive_additive' / drive_additive_settled / sched_invariant' are the true variants. *)
+Definition cex_wire : bytes := [1; 9; 0; 0; 0; 0; 0; 0].
+
+Lemma A_stmt_false : ~ A_stmt (fun b => b) 10.
+Proof.
+  intros H.
+  assert (Hok : bytes_ok cex_wire) by (apply bytes_okb_ok; reflexivity).
+  assert (Hnil : bytes_ok []) by constructor.
+  specialize (H Header cex_wire [] I I Hok Hnil ltac:(vm_compute; reflexivity)).
+  vm_compute in H. discriminate.
+Qed.
+
+Lemma sched_invariant_stmt_false : ~ sched_invariant_stmt (fun b => b) 10.
+Proof.
+  intros H.
+  assert (Hok : bytes_ok cex_wire) by (apply bytes_okb_ok; reflexivity).
+  destruct (run_schedule (fun b => b) 10 (new_parser 100) cex_wire []) as [p1 d1 u1 o1| |] eqn:E1;
+    [|vm_compute in E1; discriminate|vm_compute in E1; discriminate].
+  destruct (run_schedule (fun b => b) 10 (new_parser 100) cex_wire [8; 0]) as [p2 d2 u2 o2| |] eqn:E2;
+    [|vm_compute in E2; discriminate|vm_compute in E2; discriminate].
+  specialize (H 100 cex_wire [] [8; 0] p1 d1 u1 o1 p2 d2 u2 o2
+                ltac:(vm_compute; reflexivity) Hok ltac:(vm_compute; reflexivity) E1 E2).
+  destruct H as [_ [Hst _]]. vm_compute in E1, E2. inversion E1; inversion E2; subst.
+  cbn [st] in Hst. discriminate.
+Qed.
+
+Print Assumptions drive_total.
+Print Assumptions drive_additive'.
+Print Assumptions drive_additive_settled.
+Print Assumptions drive_settle.
+Print Assumptions drive_settle_nonempty.
+Print Assumptions parse_total.
+Print Assumptions parse_reported.
+Print Assumptions parse_stuck.
+Print Assumptions parse_sticky.
+Print Assumptions sched_total.
+Print Assumptions sched_invariant'.
+Print Assumptions A_stmt_false.
+Print Assumptions sched_invariant_stmt_false.
